@@ -8,8 +8,8 @@ USES_FACTS = True
 DRIVER = "shootmodel_map"
 
 MANIFEST = dict(
-    text="Lean 4 theorems over a model of the mapper's decision logic (field flattening, tag map, name matching, matchType/mayMisConv, mismatch-before-match pair loops against the two write-sets, statement lists): write-once as an invariant of the write-sets by induction over both pair loops (all inputs), closed form of the claim logs under unique name matching (C05_pairs), strategy = the property's priority list (C05_strategy), unmatched/incompatible never written, -way, tag/-i rules, round trip for identical-type pairs, and the name relation characterised from both sides (C05_match_sound: smartMatch -> equal length and equal up to case; C05_match_iff: smartMatch <-> identical or same words; C05_match_acronym: syntactic acronym variants match; closed form of ToCamelCase on List Char); 3 finding regions with witness theorems (F_multiMatch; F_skipShadow for PROMOTED `map:\"-\"` fields; F_embedSkip: `map:\"-\"` on an EMBEDDED struct is not read), 8 `_fixed` theorems on the witnesses of the repaired regions (named scalars, tag key, joined names, promoted tags, top-level skip shadowing, pointer conversion, source-named conversion). Model tied to internal/mapper by generating src/dest package pairs, running the rebuilt `shoot map`, compiling and executing ToX/FromX on sentinel-filled values and decoding, per written leaf, the leaf it came from (plus per-leaf write counts, FromX(ToX(v)), and - for a fresh and for a reused receiver - that FromX returns its receiver and the RECEIVER holds the result; nested structs of identical layout are mapped, not converted: their own `map:\"-\"` fields do not arrive and a pointer result does not alias its source - to:nested / from:nested; multi-type runs with -to and an unsorted -type list).",
-    note="Lean kernel + standard axioms; the correspondence (tools/vlib/mapgen.py + vo.ObserveMap + Lean driver shootmodel_map) ties the model to the code; go/types Identical/ConvertibleTo come from the real go/types (harness/cmd/mapconv); the name theorems assume ASCII identifiers without underscores (names with underscores are region Out, except source fields renamed by a tag); two fields whose Pascal-cased names coincide, one of them tag-renamed, are region Out (tagAmbiguous).",
+    text="Lean 4 theorems over a model of the mapper's decision logic (field flattening, tag map, name matching, matchType/mayMisConv, mismatch-before-match pair loops against the two write-sets, statement lists): write-once as an invariant of the write-sets by induction over both pair loops (all inputs), closed form of the claim logs under unique name matching (C05_pairs), strategy = the property's priority list (C05_strategy), unmatched/incompatible never written, -way, tag/-i rules, round trip for identical-type pairs, and the name relation characterised from both sides (C05_match_sound: smartMatch -> equal length and equal up to case; C05_match_iff: smartMatch <-> identical or same words; C05_match_acronym: syntactic acronym variants match; closed form of ToCamelCase on List Char); 3 finding regions with witness theorems (F_multiMatch; F_skipShadow for PROMOTED `map:\"-\"` fields; F_embedSkip: `map:\"-\"` on an EMBEDDED struct is not read), 8 `_fixed` theorems on the witnesses of the repaired regions (named scalars, tag key, joined names, promoted tags, top-level skip shadowing, pointer conversion, source-named conversion). Model tied to internal/mapper by generating src/dest package pairs, running the rebuilt `shoot map`, compiling and executing ToX/FromX on sentinel-filled values and decoding, per written leaf, the leaf it came from (plus per-leaf write counts, FromX(ToX(v)), and - for a fresh and for a reused receiver - that FromX returns its receiver and the RECEIVER holds the result; nested structs of identical layout are mapped, not converted: their own `map:\"-\"` fields do not arrive and a pointer result does not alias its source - to:nested / from:nested; multi-type runs with -to and an unsorted -type list). Session 3: the leaf-level statement is a THEOREM - C05_obs_spec: for every input of region WF (ASCII names, distinct dotted leaf paths, nested pairs mapped) the whole observation list the model computes by executing the emitted statement lists equals the list the property prescribes (C05_leaf_to / C05_leaf_from per leaf, C05_obs_spec_counts with the per-leaf write counts, C05_part_spec for the partially-nil keys); the pieces: C05_fields_are_leaves (the generator's field list IS the set of visible, untagged, exported leaves - field collector against Go's selector rule), C05_compiles, C05_nameMatch_spec (canNameMatch with the tag map = the spec's name relation on the leaves; C05_tag_lookup, C05_match_spec). Decoy methods on other receivers in the mapper's file are a generator dimension (seeded change C05-13).",
+    note="Lean kernel + standard axioms; the correspondence (tools/vlib/mapgen.py + vo.ObserveMap + Lean driver shootmodel_map) ties the model to the code; go/types Identical/ConvertibleTo come from the real go/types (harness/cmd/mapconv); the name and leaf theorems assume ASCII identifiers without underscores (names with underscores are region Out, except source fields renamed by a tag); two fields whose Pascal-cased names coincide, one of them tag-renamed, are region Out (tagAmbiguous). The round-trip keys (rt:) and the tie of the model to the code remain with the correspondence.",
     technique="Lean 4 proof (write-set invariant, two-phase fold closed form) + differential execution of generated mappers",
     design="5/C05")
 
